@@ -46,12 +46,18 @@ Model/Digest.vos Model/Digest.vok Model/Digest.required_vos: Model/Digest.v Base
 Model/Filter.vo Model/Filter.glob Model/Filter.v.beautified Model/Filter.required_vo: Model/Filter.v Base/Bytes.vo Base/Dec.vo Gen/Crc16.vo
 Model/Filter.vio: Model/Filter.v Base/Bytes.vio Base/Dec.vio Gen/Crc16.vio
 Model/Filter.vos Model/Filter.vok Model/Filter.required_vos: Model/Filter.v Base/Bytes.vos Base/Dec.vos Gen/Crc16.vos
+Model/Handoff.vo Model/Handoff.glob Model/Handoff.v.beautified Model/Handoff.required_vo: Model/Handoff.v Base/Bytes.vo Base/Dec.vo Model/RespCodec.vo Model/Filter.vo
+Model/Handoff.vio: Model/Handoff.v Base/Bytes.vio Base/Dec.vio Model/RespCodec.vio Model/Filter.vio
+Model/Handoff.vos Model/Handoff.vok Model/Handoff.required_vos: Model/Handoff.v Base/Bytes.vos Base/Dec.vos Model/RespCodec.vos Model/Filter.vos
 Model/Incr.vo Model/Incr.glob Model/Incr.v.beautified Model/Incr.required_vo: Model/Incr.v Base/Bytes.vo Base/Dec.vo Model/RespCodec.vo Model/Filter.vo Model/CmdFilter.vo Model/Checkpoint.vo
 Model/Incr.vio: Model/Incr.v Base/Bytes.vio Base/Dec.vio Model/RespCodec.vio Model/Filter.vio Model/CmdFilter.vio Model/Checkpoint.vio
 Model/Incr.vos Model/Incr.vok Model/Incr.required_vos: Model/Incr.v Base/Bytes.vos Base/Dec.vos Model/RespCodec.vos Model/Filter.vos Model/CmdFilter.vos Model/Checkpoint.vos
 Model/Lzf.vo Model/Lzf.glob Model/Lzf.v.beautified Model/Lzf.required_vo: Model/Lzf.v Base/Bytes.vo
 Model/Lzf.vio: Model/Lzf.v Base/Bytes.vio
 Model/Lzf.vos Model/Lzf.vok Model/Lzf.required_vos: Model/Lzf.v Base/Bytes.vos
+Model/Offsets.vo Model/Offsets.glob Model/Offsets.v.beautified Model/Offsets.required_vo: Model/Offsets.v Base/Bytes.vo
+Model/Offsets.vio: Model/Offsets.v Base/Bytes.vio
+Model/Offsets.vos Model/Offsets.vok Model/Offsets.required_vos: Model/Offsets.v Base/Bytes.vos
 Model/Pipe.vo Model/Pipe.glob Model/Pipe.v.beautified Model/Pipe.required_vo: Model/Pipe.v Base/Bytes.vo Model/Backlog.vo
 Model/Pipe.vio: Model/Pipe.v Base/Bytes.vio Model/Backlog.vio
 Model/Pipe.vos Model/Pipe.vok Model/Pipe.required_vos: Model/Pipe.v Base/Bytes.vos Model/Backlog.vos
@@ -88,6 +94,9 @@ Proofs/CupcakeProofs.vos Proofs/CupcakeProofs.vok Proofs/CupcakeProofs.required_
 Proofs/DigestProofs.vo Proofs/DigestProofs.glob Proofs/DigestProofs.v.beautified Proofs/DigestProofs.required_vo: Proofs/DigestProofs.v Base/Bytes.vo Base/Table.vo Base/Endian.vo Spec/Crc64.vo Gen/Crc64.vo Model/Digest.vo Proofs/Crc64Proofs.vo
 Proofs/DigestProofs.vio: Proofs/DigestProofs.v Base/Bytes.vio Base/Table.vio Base/Endian.vio Spec/Crc64.vio Gen/Crc64.vio Model/Digest.vio Proofs/Crc64Proofs.vio
 Proofs/DigestProofs.vos Proofs/DigestProofs.vok Proofs/DigestProofs.required_vos: Proofs/DigestProofs.v Base/Bytes.vos Base/Table.vos Base/Endian.vos Spec/Crc64.vos Gen/Crc64.vos Model/Digest.vos Proofs/Crc64Proofs.vos
+Proofs/HandoffProofs.vo Proofs/HandoffProofs.glob Proofs/HandoffProofs.v.beautified Proofs/HandoffProofs.required_vo: Proofs/HandoffProofs.v Base/Bytes.vo Base/Dec.vo Model/RespCodec.vo Model/Filter.vo Model/Handoff.vo Model/Offsets.vo Proofs/RespProofs.vo
+Proofs/HandoffProofs.vio: Proofs/HandoffProofs.v Base/Bytes.vio Base/Dec.vio Model/RespCodec.vio Model/Filter.vio Model/Handoff.vio Model/Offsets.vio Proofs/RespProofs.vio
+Proofs/HandoffProofs.vos Proofs/HandoffProofs.vok Proofs/HandoffProofs.required_vos: Proofs/HandoffProofs.v Base/Bytes.vos Base/Dec.vos Model/RespCodec.vos Model/Filter.vos Model/Handoff.vos Model/Offsets.vos Proofs/RespProofs.vos
 Proofs/IncrProofs.vo Proofs/IncrProofs.glob Proofs/IncrProofs.v.beautified Proofs/IncrProofs.required_vo: Proofs/IncrProofs.v Base/Bytes.vo Base/Dec.vo Model/RespCodec.vo Model/Filter.vo Model/CmdFilter.vo Model/Checkpoint.vo Model/Incr.vo Proofs/RespProofs.vo
 Proofs/IncrProofs.vio: Proofs/IncrProofs.v Base/Bytes.vio Base/Dec.vio Model/RespCodec.vio Model/Filter.vio Model/CmdFilter.vio Model/Checkpoint.vio Model/Incr.vio Proofs/RespProofs.vio
 Proofs/IncrProofs.vos Proofs/IncrProofs.vok Proofs/IncrProofs.required_vos: Proofs/IncrProofs.v Base/Bytes.vos Base/Dec.vos Model/RespCodec.vos Model/Filter.vos Model/CmdFilter.vos Model/Checkpoint.vos Model/Incr.vos Proofs/RespProofs.vos
@@ -121,6 +130,12 @@ Props/C03.vos Props/C03.vok Props/C03.required_vos: Props/C03.v Base/Bytes.vos B
 Props/C04.vo Props/C04.glob Props/C04.v.beautified Props/C04.required_vo: Props/C04.v Base/Bytes.vo Base/Dec.vo Model/RespCodec.vo Model/Filter.vo Model/Checkpoint.vo Model/Incr.vo Proofs/IncrProofs.vo Proofs/CheckpointProofs.vo
 Props/C04.vio: Props/C04.v Base/Bytes.vio Base/Dec.vio Model/RespCodec.vio Model/Filter.vio Model/Checkpoint.vio Model/Incr.vio Proofs/IncrProofs.vio Proofs/CheckpointProofs.vio
 Props/C04.vos Props/C04.vok Props/C04.required_vos: Props/C04.v Base/Bytes.vos Base/Dec.vos Model/RespCodec.vos Model/Filter.vos Model/Checkpoint.vos Model/Incr.vos Proofs/IncrProofs.vos Proofs/CheckpointProofs.vos
+Props/C05.vo Props/C05.glob Props/C05.v.beautified Props/C05.required_vo: Props/C05.v Base/Bytes.vo Base/Dec.vo Model/RespCodec.vo Model/Filter.vo Model/Handoff.vo Proofs/HandoffProofs.vo
+Props/C05.vio: Props/C05.v Base/Bytes.vio Base/Dec.vio Model/RespCodec.vio Model/Filter.vio Model/Handoff.vio Proofs/HandoffProofs.vio
+Props/C05.vos Props/C05.vok Props/C05.required_vos: Props/C05.v Base/Bytes.vos Base/Dec.vos Model/RespCodec.vos Model/Filter.vos Model/Handoff.vos Proofs/HandoffProofs.vos
+Props/C08.vo Props/C08.glob Props/C08.v.beautified Props/C08.required_vo: Props/C08.v Base/Bytes.vo Model/Offsets.vo Proofs/HandoffProofs.vo
+Props/C08.vio: Props/C08.v Base/Bytes.vio Model/Offsets.vio Proofs/HandoffProofs.vio
+Props/C08.vos Props/C08.vok Props/C08.required_vos: Props/C08.v Base/Bytes.vos Model/Offsets.vos Proofs/HandoffProofs.vos
 Props/C09.vo Props/C09.glob Props/C09.v.beautified Props/C09.required_vo: Props/C09.v Base/Bytes.vo Model/Backlog.vo Model/Pipe.vo Proofs/PipeProofs.vo
 Props/C09.vio: Props/C09.v Base/Bytes.vio Model/Backlog.vio Model/Pipe.vio Proofs/PipeProofs.vio
 Props/C09.vos Props/C09.vok Props/C09.required_vos: Props/C09.v Base/Bytes.vos Model/Backlog.vos Model/Pipe.vos Proofs/PipeProofs.vos
